@@ -9,7 +9,7 @@ PROP = dict(
                "levels above the snapshots directory; nothing outside the snapshots directory may change, inside it only new direct children "
                "named <setID>_… may appear and pre-existing entries must stay untouched (what a failed import leaves inside is only recorded). Restore: a snapshot made by Save (external tar) from a generated "
                "tree (system + up to two users, revision + common dirs, files, modes, symlinks) is restored over generated existing data; every "
-               "failing restore (attempted two or three times) must leave names, types, modes, contents and symlink targets of the whole root as before, "
+               "failing restore (attempted twice) must leave names, types, modes, contents and symlink targets of the whole root as before, "
                "corrupt or interrupted restores must fail, successful ones followed by Cleanup must equal the saved trees and change nothing "
                "else, followed by Revert must equal the state before.",
     level_note="Sampled, not exhaustive; one fault per case. Interruption is injected at archive granularity (tar replaced by a wrapper that dies "
@@ -23,9 +23,9 @@ PROP = dict(
          "archive had been extracted and moved into place. Distinct by hash of the case.",
     assumptions=["the set id given to Import is fresh (no files of that id exist), as snapshotstate allocates it",
                  "external GNU tar, head and sh are present; the harness runs as root so tar restores modes exactly",
-                 "which archive is restored first follows Go map iteration inside Restore; the verdicts do not depend on it, the non-trivial share does (failing cases are attempted two or three times)"],
+                 "which archive is restored first follows Go map iteration inside Restore; the verdicts do not depend on it, the non-trivial share does (failing cases are attempted twice)"],
     engines=[
         gt("import", "overlord/snapshotstate/backend", "TestVerifC32Import", dict(checks=1500, shards=2), dict(checks=15000, shards=8)),
-        gt("restore", "overlord/snapshotstate/backend", "TestVerifC32Restore", dict(checks=30, shards=4), dict(checks=150, shards=8)),
+        gt("restore", "overlord/snapshotstate/backend", "TestVerifC32Restore", dict(checks=25, shards=4), dict(checks=150, shards=8)),
     ],
 )
